@@ -268,7 +268,27 @@ func run(_ *testing.T, c Case) (v engine.Verdict) {
 				}
 			}
 			if len(args) > 1 {
-				calls = append(calls, args[1])
+				// (what the function received is kept as a copy; a raw-message argument
+				// is then overwritten - it is the function's own to scribble on)
+				switch raw := args[1].Interface().(type) {
+				case json.RawMessage:
+					calls = append(calls, reflect.ValueOf(append(json.RawMessage(nil), raw...)))
+					for i := range raw {
+						raw[i] = 'x'
+					}
+				case *json.RawMessage:
+					if raw != nil {
+						cp := append(json.RawMessage(nil), (*raw)...)
+						calls = append(calls, reflect.ValueOf(&cp))
+						for i := range *raw {
+							(*raw)[i] = 'x'
+						}
+					} else {
+						calls = append(calls, args[1])
+					}
+				default:
+					calls = append(calls, args[1])
+				}
 			} else {
 				calls = append(calls, reflect.Value{})
 			}
@@ -333,9 +353,11 @@ func run(_ *testing.T, c Case) (v engine.Verdict) {
 	}
 	var res any
 	var herr error
+	var theHandler jrpc2.Handler
 	if p := func() (p any) {
 		defer func() { p = recover() }()
 		h := fi.Wrap()
+		theHandler = h
 		if c.Later {
 			_ = fi.SetStrict(!strict).AllowArray(!allowArray).Wrap()
 		}
@@ -413,6 +435,14 @@ func run(_ *testing.T, c Case) (v engine.Verdict) {
 					return engine.Failf("C15/result-not-passed-through", "function returned %s, wrapper returned %#v", show(wantRes), res)
 				}
 			}
+		}
+	}
+	// the same request once more: the first invocation left it as it was
+	if expectCall && c.Fn.Arg != nil && c.Fn.Arg.K != "request" {
+		before := len(calls)
+		if _, err2 := theHandler(ctx, req); (err2 == nil) != (herr == nil) || len(calls) != before+1 ||
+			!reflect.DeepEqual(calls[before].Interface(), calls[0].Interface()) {
+			return engine.Failf("C15/argument-differs", "the same request handled a second time: the function was called %d more time(s) (error %v), now with %s, the first time with %s", len(calls)-before, err2, show(calls[len(calls)-1]), show(calls[0]))
 		}
 	}
 	nt := false
